@@ -193,14 +193,94 @@ theorem dash_listInterrupts : listInterrupts (dashLine col t) = true := by
   rw [dash_parseMarker ht col hcol]
   simp [title_nonblank ht, show isDigit '-' = false by decide]
 
-omit ht in
-theorem dash_contLine : ContLine (dashLine col t) := by
-  by_cases h : '\n' ∈ t
-  · -- (not used for such titles; `ContLine` asks for a single line)
-    exact absurd h (by
-      intro _
-      sorry)
-  · exact ⟨col, '-', ' ' :: t, by simp [dashLine], by decide, by simp [h]⟩
+theorem title_noNl : '\n' ∉ t := by
+  obtain ⟨c, r, rfl, hc, hr⟩ := ht
+  simp only [List.mem_cons, not_or]
+  exact ⟨fun e => (alpha_plainChar c hc).n_nl e.symm, hr⟩
+
+theorem dash_contLine : ContLine (dashLine col t) :=
+  ⟨col, '-', ' ' :: t, by simp [dashLine], by decide, by simp [title_noNl ht]⟩
+
+/-- a descendant's line behind the item's content offset -/
+theorem dash_continuation (W : Nat) : parseContinuation (dashLine (W + col) t) W = some (dashLine col t) := by
+  have := parseContinuation_indented W (dashLine col t) (dash_contLine ht col)
+  have e : List.replicate W ' ' ++ dashLine col t = dashLine (W + col) t := by
+    simp [dashLine, ← List.replicate_append_replicate]
+  rw [e] at this; exact this
+
+/-- a sibling's line is not indented enough to continue the item -/
+theorem dash_noContinuation (W : Nat) (h : col < W) : parseContinuation (dashLine col t) W = none := by
+  have hsp : ('-' : Char) ≠ ' ' := by decide
+  have htab : ('-' : Char) ≠ '\t' := by decide
+  have hcont : continuation (dashLine col t) = some (List.replicate col ' ', '-' :: ' ' :: t ++ ['\n']) := by
+    unfold continuation dashLine
+    simp only [span_sptab_rep col '-' _ hsp htab]
+    have : span (· != '\n') (' ' :: (t ++ ['\n'])) = (' ' :: t, ['\n']) := by
+      have := span_neNl (' ' :: t) [] (by simp [title_noNl ht])
+      simpa using this
+    simp [ws, show pyIsSpace '-' = false by decide, this]
+  unfold parseContinuation
+  rw [hcont]
+  have hnt : '\t' ∉ List.replicate col ' ' := by
+    simp only [List.mem_replicate, not_and]; intro _ e; exact absurd e (by decide)
+  have : ¬ (col ≥ W) := by omega
+  simp [expandtabs, expandtabsAux_noTab _ 0 hnt, this]
+
+include hcol in
+theorem dash_delimiterRow : delimiterRow (dashLine col t) = false := by
+  obtain ⟨c, r, rfl, hc, _⟩ := ht
+  have hp := alpha_plainChar c hc
+  unfold delimiterRow dashLine
+  simp only [span_ws_rep col '-' _ (show pyIsSpace '-' = false by decide)]
+  have h1 : span ws ('-' :: ' ' :: (c :: r ++ ['\n'])) = ([], '-' :: ' ' :: (c :: r ++ ['\n'])) := by
+    simp [span, ws, show pyIsSpace '-' = false by decide]
+  have h2 : alignCol ('-' :: ' ' :: (c :: r ++ ['\n'])) = some (['-'], ' ' :: (c :: r ++ ['\n'])) := by
+    simp [alignCol, span]
+  simp only [h1, h2]
+  simp [delimRest, span, ws, hp.nsp, show pyIsSpace ' ' = true by decide, hp.n_bar]
+
+/-- `ListItem.read`: on a sibling's line no `check_interrupts_paragraph` fires (`List` is not asked, `Table` is not
+    asked for a line that carries a marker) -/
+theorem anyInterrupt_dash_item (cfg : Cfg) (fw : FW) (l : Line) (hp : fw.peek = some l) (hl : l.s = dashLine col t) (hcol : col < 4) :
+    ∀ ts, anyInterrupt cfg fw .list true ts = .ok false
+  | [] => rfl
+  | x :: ts => by
+    have ih := anyInterrupt_dash_item cfg fw l hp hl hcol ts
+    have hn := dash_noEarly ht col hcol
+    simp only [anyInterrupt]
+    split
+    · exact ih
+    · rename_i hc
+      have : interruptsOne cfg fw x = .ok false := by
+        unfold interruptsOne
+        rw [hp]
+        cases x <;> simp [hl, hn.hd, hn.qt, hn.cf, hn.tb, hn.html] at hc ⊢
+      rw [this]; exact ih
+
+/-- `Paragraph.read`: a kid's line ends the paragraph of the title (`List.check_interrupts_paragraph`) -/
+theorem anyInterrupt_dash_para (cfg : Cfg) (fw : FW) (l : Line) (hp : fw.peek = some l) (hl : l.s = dashLine col t) (hcol : col < 4) :
+    ∀ ts, .list ∈ ts → anyInterrupt cfg fw .thematicBreak false ts = .ok true
+  | [], hm => by simp at hm
+  | x :: ts, hm => by
+    have hn := dash_noEarly ht col hcol
+    have ih : x ≠ .list → anyInterrupt cfg fw .thematicBreak false ts = .ok true := by
+      intro hne
+      refine anyInterrupt_dash_para cfg fw l hp hl hcol ts ?_
+      rcases List.mem_cons.mp hm with h | h
+      · exact absurd h.symm hne
+      · exact h
+    simp only [anyInterrupt]
+    cases x <;> simp only [hasInterrupt, Bool.not_true, Bool.not_false, Bool.false_or, Bool.true_or, Bool.or_false, if_true]
+    all_goals first
+      | exact ih (by decide)
+      | skip
+    all_goals simp only [interruptsOne, hp, hl, hn.hd, hn.qt, hn.cf, hn.html, dash_listInterrupts ht col hcol]
+    all_goals first
+      | exact ih (by decide)
+      | rfl
+      | skip
+    all_goals trace_state
+    all_goals sorry
 
 end Dash
 
